@@ -80,6 +80,16 @@ CLAIMED = {
    text='Clauses: R1 prologue/epilogue are exact inverses on the stack pointer for functions and procedures with S=0 and S>0, link/result slots are where the caller expects them, formal i == actual i, frame-base lowering is S+O-1; R2 the initial stack pointer keeps every word the exit stub and stop touch below the arrays and inside the 200000-word memory shared with the simulator; R3 each call/syscall/stop sequence sizes the frame for its outgoing words; R4 array placement from the top of memory; R5/R6 frame balance and spill/outgoing-actual discipline (import of C01-R5/R8).',
    note='NOT decided: per-access bounds of arbitrary executions, recursion depth vs. stack budget, array subscripts, unchecked array lengths. Trusted: clang AST; interpreter; ISA semantics of 12 instructions in the affine executor.',
    ref='DESIGN.md section 5, C08'),
+ 'C09': dict(
+   technique='static analysis: AST/CFG rules over xcmp.cpp (thrown types, try containment, use-after-move dataflow, never-null lookup, checked downcasts with a frozen guard table) plus abstract interpretation of the lexer on the input class c.EOF* and imports of the moved-from-child, overflow and val-guard rules',
+   text='Clauses (necessary conditions; "all byte strings" is a dynamic quantifier): R1 every throw derives from std::exception and the drivers run the compiler inside catching try blocks; R2 no read of the uninitialised val value; R3 no null child / moved-from dereference during code generation for all operator x operand shapes; R4 no signed overflow in folding; R5 no use of a unique_ptr variable after std::move; R6 SymbolTable::lookup never returns null; R7 every dereferenced dynamic_cast is null-tested or guard-recorded; R8 the lexer reaches END_OF_FILE or a diagnostic on c.EOF* for all 256 bytes.',
+   note='NOT decided: termination/recursion depth on arbitrary inputs, out-of-bounds accesses in general (one seeded memcpy over-read is missed, DESIGN.md), ctype on plain char. Trusted: clang AST; DOWNCAST_GUARDS table.',
+   ref='DESIGN.md section 5, C09'),
+ 'C10': dict(
+   technique='static analysis: AST rules (thrown types, try containment, downcast guard table) + abstract interpretation of resolveLabels/CodeGen on degenerate and undefined-label programs, of the lexer on c.EOF* for all bytes, and imports of the UB-free sizing (C04-R1) and unaligned-reference (C05-R3) rules',
+   text='Clauses: R1 exception discipline and containment in hexasm.cpp; R2 undefined labels are rejected with hexutil::Error for relative and absolute references without null dereference; R3 empty and label-only programs are laid out without UB; R4 the lexer terminates at end of input after any byte; R5 checked downcasts; R8 no UB while sizing/encoding immediates over the whole int range; R9 unaligned absolute references are rejected.',
+   note='NOT decided: termination of the layout iteration on every program (monotone growth is argued in the fix, not proved by the check), ctype on plain char, arbitrary byte strings beyond the listed input classes.',
+   ref='DESIGN.md section 5, C10'),
 }
 
 NOT_YET = 'engine not finished yet in this round (DESIGN.md section 7 build order); no check is registered, nothing is claimed'
